@@ -13,7 +13,7 @@ TRUST = 'trusted base: executor model as for C07; failure archetypes produced by
 TECHNIQUE = 'deterministic simulation, per-target fault injection x seeded thread schedules, history oracle over stdout and exit status'
 LEVEL = 'exploration'
 BUDGET = {'quick': 200, 'thorough': 2400}
-NCASES = {'quick': 260, 'thorough': 6000}
+NCASES = {'quick': 900, 'thorough': 6000}
 RULE = ('cases: target lists of 2-4 (thorough: up to 6) entries mixing healthy archetypes with failure archetypes (unresolvable, refused, black-holed, silent, '
         'close before/after banner, bad block size, bad SSH-1 CRC, truncated KEXINIT, garbage in the probe phase, version-mismatch only) in seeded positions, '
         'blank lines between entries, `--threads` 1..n, text and -j, seeded scheduler policy; reference per-target statuses come from fresh single-target runs. '
